@@ -32,6 +32,23 @@ import (
 
 const ID = "C06"
 
+// tierBlocks is blocks() with the developer filter C06_FAMS=fam,fam applied (parent and workers
+// see the same environment; a filtered run is reported as capped).
+func tierBlocks(thorough bool) []blockDesc {
+	bl := blocks(thorough)
+	f := os.Getenv("C06_FAMS")
+	if f == "" {
+		return bl
+	}
+	var sel []blockDesc
+	for _, b := range bl {
+		if strings.Contains(","+f+",", ","+b.Fam+",") {
+			sel = append(sel, b)
+		}
+	}
+	return sel
+}
+
 // ---------------------------------------------------------------------------------------------
 // worker
 
@@ -63,7 +80,7 @@ func handleJob(raw json.RawMessage) interface{} {
 		return handleCorpus(*j.Corpus)
 	}
 	if wBlocks == nil || wThorough != j.Thorough {
-		wBlocks, wThorough = blocks(j.Thorough), j.Thorough
+		wBlocks, wThorough = tierBlocks(j.Thorough), j.Thorough
 	}
 	var specs []Spec
 	for b := j.From; b < j.To && b < len(wBlocks); b++ {
@@ -104,6 +121,10 @@ func main() {
 		probe(s)
 		return
 	}
+	if s := os.Getenv("C06_BENCH"); s != "" {
+		bench(s)
+		return
+	}
 	if mc.IsWorker() {
 		mc.WorkerMain(handleJob)
 		return
@@ -128,7 +149,10 @@ func main() {
 	r.Assume("behaviour = results, traps (trap / no trap; engines word messages differently) and the sequence of host calls of every call of the fixed call sequence, compared original vs stripped on the same engine")
 	r.Assume("imported functions are recording host stubs without results; recursion is bounded by a fuel global so that every call terminates")
 
-	bl := blocks(thorough)
+	bl := tierBlocks(thorough)
+	if f := os.Getenv("C06_FAMS"); f != "" {
+		r.Cap("C06_FAMS=" + f)
+	}
 	sizes := make([]int, len(bl))
 	mc.ParallelFor(len(bl), func(i int) { sizes[i] = len(expand(bl[i], thorough)) })
 	famCases := map[string]int{}
@@ -360,6 +384,7 @@ func main() {
 	r.Extra("cases_with_start_function", stats.StartCases)
 	r.Extra("stripped_binary_identical", stats.Identical)
 	r.Extra("unreachable_functions_kept_note", map[string]interface{}{"count": stats.KeptUnreachable, "first": keptNote})
+	r.Extra("worker_cpu_s_without_node", float64(stats.CPUms)/1000)
 	r.Extra("corpus_items", corpusSeen)
 	r.Extra("corpus_functions_removed", corpusRemoved)
 	r.Extra("corpus_outside_subset", corpusSkipped)
